@@ -284,8 +284,8 @@ class WeakForms(_Simu):
 
         # end cases ----------------------------------------------------
 
-        # flat nodal vectors (Nn * dof_n,) cannot be told from element values when Nn * dof_n == Ne
-        storedOnNodes = True if result in ["u", "v", "a"] else None
+        # the storage is known here; sizes alone cannot tell it when Nn * dof_n == Ne or Nn == Ne
+        storedOnNodes = True  # every result of this simulation is a nodal field
         return self.Results_Reshape_values(values, nodeValues, storedOnNodes)
 
     def Results_Iter_Summary(
